@@ -285,16 +285,15 @@ def run(ctx, args):
     ctx.regen(["GenWs.v", "GenValidators.v"])
     ctx.build("Props/C09.vo")
     quick = ctx.tier == "quick"
-    recs = []
     with no_gc():
-        for h in range(90 if quick else 2500):
-            recs.append(run_case(ctx, ctx.rng, h))
+        for b in range(1 if quick else 10):
+            recs = [run_case(ctx, ctx.rng, b * 1000 + h) for h in range(90 if quick else 120)]
+            terms = [T.ghist(r["w0"], [(F_ALL, s["op"]) for s in r["steps"]]) for r in recs]
+            vals = ctx.coq_eval("c09", T.REQ, terms, chunk=max(4, len(terms) // 16 + 1))
+            for r, v in zip(recs, vals):
+                compare(ctx, r, v)
         validator_cases(ctx, 150 if quick else 3000)
         fixed_cases(ctx)
-    terms = [T.ghist(r["w0"], [(F_ALL, s["op"]) for s in r["steps"]]) for r in recs]
-    vals = ctx.coq_eval("c09", T.REQ, terms, chunk=max(4, len(terms) // 16 + 1))
-    for r, v in zip(recs, vals):
-        compare(ctx, r, v)
     return ctx.finish(
         rule="states: 1-2 parsed documents (as in C01) + a pool of parentless nodes, 0-10 legal edits; then illegal "
              "single-node calls sampled from the full product for that state: every attached node (text in DATA, "
